@@ -50,17 +50,19 @@ def gen_bundle(rng):
     sl = {}
     if rng.random() < 0.5:
         sl = {"t3_ops": rng.choice([0, 1, 2, 3, 16])}
-    b = {"version": "t3-bundle-v1", "now": "2023-11-14T00:00:00Z",
+    b = {"version": "t3-bundle-v1", "now": rng.choice(["2023-11-14T00:00:00Z", "2023-11-14T00:00:00Z", "2024-02-29T12:00:00Z", "1970-01-01T00:00:00Z", ""]),
          "agent": {"id": "A", "caps": {"ops": ops_cap, "tokens": rng.choice([1, 8, 256])}, "style_prefix": rng.choice(["", "calm"])},
          "world": {"hot_labels": [], "k": 0},
          "t1": {"touched_nodes": nodes, "metrics": {}},
          "t2": {"retrieved": [], "metrics": {"sim_stats": {"max": s_max, "mean": 0.0}}},
          "text": {"input": rng.choice(["hello", "", "what is a tree"]), "labels_from_t1": rng.sample(WORDS, rng.randint(0, 3)) if rng.random() < 0.6 else []},
          "cfg": {"t3": {"tokens": rng.choice([1, 16, 256, 512]), "max_rag_loops": 1, "policy": pol} if pol or rng.random() < 0.5 else {"tokens": 256},
-                 "t2": {"owner_scope": rng.choice(["any", "agent", "world", "bogus"]), "k_retrieval": rng.choice([1, 2, 64]), "sim_threshold": 0.3}},
+                 "t2": {"owner_scope": rng.choice(["any", "agent", "world", "bogus"]), "k_retrieval": rng.choice([1, 2, 64]), **rng.choice([{"sim_threshold": 0.3}, {"sim_threshold": 0.3}, {"sim_threshold": 0.0}, {"sim_threshold": -1.0}, {"sim_threshold": 0.75}, {}])}},
          "slice_caps": sl}
     if rng.random() < 0.1:
         del b["slice_caps"]
+    if rng.random() < 0.05:
+        del b["now"]
     return b
 
 
@@ -127,6 +129,17 @@ def check_deliberate(b, sess):
     if s_max < tl and cap >= 2 and "RequestRetrieve" not in kinds:
         sess.violation("no-retrieve-below-low-threshold", case, kinds)
     for o in ops:
+        if getattr(o, "kind", None) == "RequestRetrieve":
+            # the request is a function of THIS bundle: query, owner scope, k and the hints (clock, threshold)
+            cfg_t2 = (b0["cfg"].get("t2") or {})
+            owner = str(cfg_t2.get("owner_scope", "any"))
+            exp_req = {"query": b0.get("text", {}).get("input", ""), "owner": owner if owner in ("agent", "world", "any") else "any",
+                       "k": max(1, int(cfg_t2.get("k_retrieval", 64)) // 2),
+                       "hints": {"now": b0.get("now", ""), "sim_threshold": float(cfg_t2.get("sim_threshold", 0.3))}}
+            got_req = {"query": o.query, "owner": o.owner, "k": o.k, "hints": dict(o.hints or {})}
+            sess.count("retrieve_requests_checked")
+            if got_req != exp_req:
+                sess.violation("retrieve-request-not-a-function-of-the-bundle", case, {"got": got_req, "exp": exp_req})
         if getattr(o, "kind", None) == "EditGraph":
             ids = [e.get("id") for e in o.edits]
             if ids != sorted(ids) or len(o.edits) > max(cap - 1, 0) * 4 or o.cap > max(cap - 1, 0) * 4:
